@@ -139,7 +139,7 @@ class Check:
             'property_id': self.pid, 'tier': self.tier, 'seed': int(self.seed), 'level': 'exploration',
             'coverage': cov, 'assumptions': self.assumptions, 'wall_s': round(wall, 2), 'violations': int(nviol),
         }
-        if REPLAY is None:
+        if REPLAY is None and os.path.realpath(REPO) == '/repo':      # evidence only ever describes runs against /repo itself
             with open(os.path.join(VERIF, 'evidence', self.pid + '.json'), 'w') as f:
                 json.dump(ev, f, indent=1, default=repr, sort_keys=True)
         for l in lines:
